@@ -582,12 +582,34 @@ impl Scenario for C18 {
         if long_poll {
             cx.probe("long_run_of_in_progress_reports");
         }
-        let n = if long_poll { 52 + cx.draw(69) } else { 2 + cx.draw(5) };
+        // ... or a bus that has seen more than a hundred successful transfers in a row before the
+        // data chunks that are looked at
+        let long_clean = !long_poll && cx.chance(1, 64);
+        if long_clean {
+            cx.probe("long_run_of_successful_transfer_reports");
+        }
+        let n = if long_poll {
+            52 + cx.draw(69)
+        } else if long_clean {
+            106 + cx.draw(16)
+        } else {
+            2 + cx.draw(5)
+        };
         let mut msgs: Vec<Message<'static>> = Vec::new();
         let mut incoming: Vec<u8> = Vec::new();
         let mut replies: Vec<Option<Message<'static>>> = Vec::new();
-        for _ in 0..n {
-            let m = if long_poll {
+        for i in 0..n {
+            if long_clean && i + 3 < n {
+                let a = gens::address(cx);
+                let r = Message::ReportState(a, if cx.chance(1, 2) { State::ConfigReceived } else { State::PixelsReceived });
+                incoming.extend(Frame::from(r.clone()).to_bytes_with_newline());
+                replies.push(Some(r));
+                msgs.push(Message::QueryState(a));
+                continue;
+            }
+            let m = if long_clean && (i + 3 == n || i + 1 == n) {
+                Message::SendData(Offset(16 * cx.draw(4) as u16), gens::data(gens::payload(cx, 16)))
+            } else if long_poll {
                 match cx.draw(8) {
                     0 => Message::Hello(gens::address(cx)),
                     1 => Message::RequestOperation(gens::address(cx), gens::ALL_OPS[cx.draw(6) as usize]),
@@ -632,6 +654,7 @@ impl Scenario for C18 {
         // test can read the real monotonic clock without going through any seam.
         wire.sim_read_latency_ns = *cx.pick(&[0u64, 520_833, 5_000_000]);
         let real_latency = cx.chance(1, 48);
+        let real_idle = !long_poll && cx.chance(1, 6000);
         let slow_write = cx.chance(1, 1500);
         // a tree that flushes the port meets a port whose flush can fail once (the unchanged tree never flushes)
         if cx.chance(1, 6) {
@@ -676,6 +699,12 @@ impl Scenario for C18 {
                 // the port's write blocks for longer than the pacing delay (real time)
                 shared.lock().real_delay_next_write = Some(Duration::from_millis(32 + cx.draw(8)));
                 cx.probe("data_chunk_write_blocks_longer_than_30ms");
+            }
+            if real_idle && matches!(&replies[i], Some(Message::ReportState(_, State::PageLoadInProgress | State::PageShowInProgress))) {
+                // the caller was away for more than a second of REAL time before this request (the code
+                // under test can read the real monotonic clock without passing any seam)
+                cx.probe("real_idle_second_before_request");
+                std::thread::sleep(Duration::from_millis(1050 + cx.draw(150)));
             }
             if real_latency && matches!(&replies[i], Some(Message::ReportState(_, State::PageLoadInProgress | State::PageShowInProgress))) {
                 shared.lock().real_delay_next_read = Some(Duration::from_millis(2 + cx.draw(3)));
